@@ -1,7 +1,48 @@
 (** Correspondence and monitor definitions for C15, evaluated by [vm_compute] on the cases the
     harness (harness/cmd/c15) ran on the real code.  No proofs here. *)
-From Teleport Require Import Base.Bytes Base.Outcome Model.Rvesting Model.RvestingCheck Model.Halt Model.HaltAgg.
+From Coq Require Import String.
+From Teleport Require Import Base.Bytes Base.Outcome Model.Rvesting Model.RvestingCheck Model.HaltGuardIR Gen.HaltGuardsGen Model.Halt Model.HaltAgg.
 Local Open Scope N_scope.
+
+(** ** Decidable obligations on the REGENERATED guards (Gen/HaltGuardsGen.v): what the panic-freedom proofs need
+    from the validation functions of /repo.  Defined here (no proofs) so that the check can still evaluate and
+    NAME a failed obligation when Proofs/Halt.v no longer builds. *)
+Definition guard_obligations : list (string * bool) :=
+  [("bsc ClientState.Validate rejects Epoch = 0 (Initialize / UpgradeState compute height % Epoch)",
+    existsb (forced (ABelow (KFld "Epoch") 1)) bsc_client_validate_guards);
+   ("bsc ClientState.Validate (through Header.ValidateBasic) rejects len(Extra) < extraVanity+extraSeal (ParseValidators slices extra[extraVanity : len-extraSeal])",
+    existsb (forced (ABelow (KLen "Header.Extra") (bsc_extra_vanity + bsc_extra_seal))) bsc_client_validate_guards);
+   ("bsc ClientState.Validate (through Header.ValidateBasic) rejects len(Bloom) > bloomByteLength (Bloom.SetBytes panics)",
+    existsb (forced (AAbove (KLen "Header.Bloom") bsc_bloom_byte_length)) bsc_client_validate_guards);
+   ("bsc ClientState.Validate (through Header.ValidateBasic) rejects len(Nonce) > nonceByteLength (BlockNonce.SetBytes panics)",
+    existsb (forced (AAbove (KLen "Header.Nonce") bsc_nonce_byte_length)) bsc_client_validate_guards);
+   ("the seal can be sliced off the extra data (twice: extraSeal in ecrecover, 65 in encodeSigHeader): ecrecover's own length test covers it, or the validated length extraVanity+extraSeal does",
+    existsb (forced (ABelow (KLen "Extra") (N.max bsc_extra_seal 65))) bsc_ecrecover_guards
+    || N.leb (N.max bsc_extra_seal 65) (bsc_extra_vanity + bsc_extra_seal));
+   ("eth ClientState.Validate (through Header.ValidateBasic) rejects len(Bloom) > 256 (types.BytesToBloom panics)",
+    existsb (forced (AAbove (KLen "Header.Bloom") 256)) eth_client_validate_guards);
+   ("GenesisMetadata.Validate rejects an empty key (store.Set panics)",
+    existsb (forced (ABelow (KLen "Key") 1)) genesis_metadata_validate_guards);
+   ("aggregate GenesisState.Validate rejects a token pair without denominations (TokenPair.GetID indexes Denoms[0])",
+    existsb (forced (ABelow (KLen "Denoms") 1)) aggregate_genesis_pair_guards);
+   ("packet GenesisState.Validate rejects an acknowledgement without data (store.Set panics on a nil value)",
+    existsb (forced (ABelow (KLen "Data") 1)) packet_genesis_ack_guards);
+   ("packet GenesisState.Validate rejects a commitment without data (store.Set panics on a nil value)",
+    existsb (forced (ABelow (KLen "Data") 1)) packet_genesis_commitment_guards);
+   ("every field the guards mention is supplied by the model",
+    (let hd0 := {| hd_height := mkH 0 0; hd_extra_len := 0; hd_mix := []; hd_uncle := []; hd_diff := [];
+                   hd_bloom_len := 0; hd_nonce_len := 0; hd_gas_limit := 0; hd_gas_used := 0 |} in
+     guards_known (bsc_client_env hd0 0 0 0) bsc_client_validate_guards
+     && guards_known (header_env hd0) bsc_ecrecover_guards
+     && guards_known (eth_client_env hd0 0) eth_client_validate_guards)
+    && guards_known (metadata_env ([], 0)) genesis_metadata_validate_guards
+    && guards_known (ga_pair_env {| gp_erc20 := []; gp_denoms := [] |}) aggregate_genesis_pair_guards
+    && guards_known (packet_env {| gp_src := []; gp_dst := []; gp_seq := 0; gp_data_len := 0 |})
+         (packet_genesis_ack_guards ++ packet_genesis_commitment_guards))]%string.
+
+Definition failed_guard_obligations : list string := map fst (filter (fun o => negb (snd o)) guard_obligations).
+
+
 
 (** Observed classes: 0 ok, 1 error, 2 panic, 9 not executed. *)
 
